@@ -128,7 +128,7 @@ class M(Model):
                         f"reward={float(ts2.reward)!r} documented={self.penalty!r}"))
         for f in self.PROBLEM_FIELDS:
             x, y = np.asarray(getattr(s, f)), np.asarray(getattr(s2, f))
-            if x.shape != y.shape or x.dtype != y.dtype or x.tobytes() != y.tobytes():
+            if x.shape != y.shape or not np.array_equal(x, y):  # "untouched" = same values (dtype is C01's business)
                 out.append((f"illegal move changed state field {f}", f"{short(x)} -> {short(y)}"))
         return out
 
@@ -142,13 +142,12 @@ class M(Model):
         k = int(s.num_total_visits)
         if traj.shape != (L,) or vm.shape != (N + 1,) or d.shape != (N + 1,):
             return [("trajectory / visited_mask / demands shape", f"{traj.shape} {vm.shape} {d.shape}")]
-        if not 1 <= k <= L + 1:
-            return [("num_total_visits outside 1..2*num_nodes+1", f"num_total_visits={k}")]
+        if not 0 <= k <= L + 1:
+            return [("num_total_visits outside 0..2*num_nodes+1", f"num_total_visits={k}")]
         h = self._hist(s)
         if any(c < 0 or c > N for c in h):
             return [("trajectory holds an index outside 0..num_nodes", f"route={h}")]
-        if h[0] != DEPOT:
-            out.append(("route does not start at the depot", f"route={h}"))
+        # (whether the stored route lists the initial depot is a representation detail, not a hard constraint)
         cust = [c for c in h if c != DEPOT]
         if len(set(cust)) != len(cust):
             out.append(("a customer occurs twice in the trajectory", f"route={h}"))
@@ -168,8 +167,7 @@ class M(Model):
         if not np.array_equal(want[1:], vm[1:]):
             out.append(("visited_mask disagrees with the customers in the trajectory",
                         f"route={h} visited={np.flatnonzero(vm).tolist()}"))
-        if (traj[min(k, L):] != DEPOT).any():
-            out.append(("unfilled trajectory entries are not DEPOT_IDX", f"trajectory[{k}:]={traj[k:].tolist()}"))
+        # (the padding of the unfilled trajectory entries is not a hard constraint of the problem: not asserted)
         return out
 
     def complete(self, s, ts):
@@ -252,12 +250,12 @@ class M(Model):
         elif (xy < 0).any() or (xy > 1).any():
             out.append(("coordinates outside the unit square", f"min={xy.min()} max={xy.max()}"))
         d = np.asarray(s0.demands)
-        if d.shape != (N + 1,) or not np.issubdtype(d.dtype, np.integer):
-            return out + [("demands shape / dtype", f"{d.shape} {d.dtype}")]
+        if d.shape != (N + 1,):  # (dtype conformance is C01's business)
+            return out + [("demands shape", f"{d.shape}")]
         if int(d[DEPOT]) != 0:
             out.append(("depot demand is not 0", str(int(d[DEPOT]))))
-        c = d[1:].astype(np.int64)
-        if (c < 1).any() or (c > self.D).any():
+        c = np.asarray(d[1:], np.float64)
+        if (c != np.round(c)).any() or (c < 1).any() or (c > self.D).any():
             out.append(("customer demand outside 1..max_demand", f"demands={c.tolist()} max_demand={self.D}"))
         if (c > self.C).any():
             out.append(("customer demand exceeds the vehicle capacity", f"demands={c.tolist()} capacity={self.C}"))
@@ -271,8 +269,7 @@ class M(Model):
         tr = np.asarray(s0.trajectory)
         if tr.shape != (2 * N,) or (tr != DEPOT).any():
             out.append(("initial trajectory is not all DEPOT_IDX", short(tr)))
-        if int(s0.num_total_visits) != 1:
-            out.append(("initial num_total_visits != 1 (the depot)", str(int(s0.num_total_visits))))
+        # (whether the visit counter starts at 1 - counting the initial depot - is bookkeeping, not advertised)
         return out
 
     # ------------------------------------------------------------------ C12
